@@ -171,6 +171,24 @@ def run(ctx):
                 ctx.ob("Q2", k + "|After", own, st["sp"], "index of the element found for the cursor's op id" if own else "the After arm returns the index of an element that was not looked up by the cursor's op id")
             else:
                 allowed = vis_edges.get(F, []) + zero_edges.get(F, []) + present_edges.get(F, [])
+                # the same disjunction held in a bool temporary (`let there = f.visible || <element lookup>; if there { .. }`)
+
+                def present_call(t_, F=F):
+                    if not t_.get("args") or len(t_["args"]) < 2:
+                        return False
+                    pv_ = b.provenance(t_["args"][0], through_calls=True)
+                    if not any((norm_fn(c_) or "").endswith("OpSet::seek_ops_by_index") for c_ in pv_.callees()):
+                        return False
+                    if not any(b.origin(l_, pr_) == (F[0], F[1] + (".index",)) for l_, pr_ in pv_.places):
+                        return False
+                    for cl_ in b.provenance(t_["args"][1], through_calls=False).closures:
+                        r_ = f.fns.get(cl_)
+                        if r_ is not None:
+                            names_ = [(norm_fn(tt.get("fn")) or "").split("::")[-1] for _, tt in f.calls(r_)]
+                            if names_.count("elemid_or_key") >= 2 and ("eq" in names_ or "ne" in names_):
+                                return True
+                    return False
+                allowed = allowed + cfg.cond_edges(b, atom_call=present_call, atom_place=lambda og, F=F: og == (F[0], F[1] + (".visible",)))
                 ok = on(before_e) and bool(allowed) and b.edges_dominate(allowed, bi)
                 ctx.ob("Q3", k + "|Before", ok, st["sp"], "behind visible == true, index == 0, or `the element at that index is still the cursor's element`" if ok else
                        "on the Before arm the index of an element is returned without that element being visible (or first): a deleted element's own index is not its nearest surviving predecessor")
@@ -185,6 +203,14 @@ def run(ctx):
         ok = bool(present_false) and b.edges_dominate(present_false, bi)
         ctx.ob("Q3", k + "|only when the element is gone", ok, t["sp"], "behind `element at that index is still the cursor's element` == false" if ok else
                "the Before walk to the predecessor starts because the cursor's *op* is invisible, without checking that its *element* is gone: a cursor on a value later overwritten by put resolves to the previous element")
+    # every predecessor the walk looks up is judged like the cursor's own element: visible op *or* element still showing a value
+    for k, (bi, t) in util.ordinal_keys(walk, lambda it: "get_cursor_position_for|Before walk"):
+        others = {wb for wb, wt in b.calls() if callee(wt) == SEEK and wb != bi}
+        nxt = t.get("target")
+        reach = b.reachable(start=nxt, removed_blocks=others | {bi}) if nxt is not None else set()
+        ok = any((callee(wt) or "").endswith("OpSet::seek_ops_by_index") and wb in reach for wb, wt in b.calls())
+        ctx.ob("Q3", k + "|predecessor judged by its element", ok, t["sp"], "an element lookup follows the predecessor lookup" if ok else
+               "the walk accepts a predecessor only if its insert op is visible: an element whose value was overwritten by put is stepped over although it still exists")
     # ---------------- Q4
     n_c = 0
     for fn in (POS, GET):
@@ -251,10 +277,42 @@ def run(ctx):
         rv = st["rv"]
         pv = fb.provenance(rv["o"][rv["fields"].index("visible")], through_calls=True)
         flds = {"".join(e for e in fb.origin(l, pr)[1] if e.startswith(".")) for l, pr in pv.places}
-        from_top = any(".index.top" in x for x in flds)
+        # `a && b` lowers to a bool with two definitions (false / the value of b): `a` reaches it by control, not by data
+        from . import C28
+        vop = rv["o"][rv["fields"].index("visible")]
+        vpl = vop.get("c") or vop.get("m")
+        vlocals = set(pv.locals) | ({fb.origin(vpl["l"], ())[0]} if vpl is not None else set())
+        for vl in vlocals:
+            if fb.local_ty(vl) != "bool":
+                continue
+            for (db, si, rec) in fb.defs().get(vl, []):
+                for sb, sw in C28.control_switches(fb, db):
+                    src = fb.bool_operand_source(sw["op"])
+                    if src and src["kind"] == "call":
+                        for a_ in src["t"].get("args", []):
+                            pc = fb.provenance(a_, through_calls=True)
+                            flds |= {"".join(e for e in fb.origin(l, pr)[1] if e.startswith(".")) for l, pr in pc.places}
+                    elif src and src["kind"] in ("place", "discr"):
+                        flds.add("".join(e for e in src["origin"][1] if e.startswith(".")))
+                        d_ = fb.single_def(src["origin"][0])
+                        if d_ and d_[1] == "t":
+                            for a_ in d_[2].get("args", []):
+                                pc = fb.provenance(a_, through_calls=True)
+                                flds |= {"".join(e for e in fb.origin(l, pr)[1] if e.startswith(".")) for l, pr in pc.places}
+        from_top = any(".index.top" in x or ".index.text" in x for x in flds)
         from_vis = any(".index.visible" in x for x in flds)
         ctx.ob("Q6", k, from_vis and not from_top, st["sp"], "from the visible index (op-level), as the walking path" if from_vis and not from_top else
-               "the indexed path takes `visible` from the top index (is the op the winner of its element) while the walking path reports op-level visibility: they disagree on a value that lost to a concurrent put (debug_assert in seek_list_opid; a Before cursor resolves to 0)")
+               "the indexed path takes `visible` from the top / text-width index (is the op the winner of its element) while the walking path reports op-level visibility: they disagree on a value that lost to a concurrent put (debug_assert in seek_list_opid; a Before cursor resolves to 0)")
+        is_mark_free = any(x.endswith(".action") for x in flds)
+        ctx.ob("Q6", k + "|a mark is not an element", is_mark_free, st["sp"], "visible also requires the op not to be a mark (the walking path iterates no_marks())" if is_mark_free else
+               "the indexed path can report a mark op as a visible element; the walking path never does: a Before cursor whose insertion parent is a mark op resolves forward (release) or panics (debug)")
+    deltas = [(bi, t) for bi, t in fb.calls() if (norm_fn(t.get("fn")) or "").split("::")[-1] == "delta" and len(t.get("args", [])) >= 3]
+    ctx.floor("prefix-sum lookups in seek_list_opid_fast", len(deltas), 2)
+    for k, (bi, t) in util.ordinal_keys(deltas, lambda it: "seek_list_opid_fast|index measured to the element start"):
+        pvd = fb.provenance(t["args"][2], through_calls=False)
+        ok = any((norm_fn(c) or "").endswith("OpSet::list_register_at_pos") for c in pvd.callees())
+        ctx.ob("Q6", k, ok, t["sp"], "widths of the elements wholly before the op's element" if ok else
+               "the index is the width of everything before the op's *position*: the winner of the op's own element, when it sorts before the op, is counted, and a cursor on a deleted conflicting value resolves one element too far (the walking path counts whole elements)")
     nones = [st["sp"] for bi, blk in enumerate(sl.blocks) if not blk.get("cleanup") for st in blk["st"]
              if st["d"]["l"] == 0 and not st["d"]["p"] and st["rv"]["k"] == "Agg" and st["rv"].get("adt") == "core::option::Option" and st["rv"].get("variant") == "None"]
     ctx.ob("Q6", "seek_list_opid_slow|None only when the op is not in the object", not nones, (nones or [sl.rec["sp"]])[0],
